@@ -118,7 +118,7 @@ def run(ctx):
     from props import C06, l3gen, l3common, ws
     nchain = 60 if thorough else 14
     for _ in range(nchain):
-        w = C06.gen_chain(rng)
+        w = C06.gen_chain(rng) if rng.random() < 0.6 else C06.gen_chain_stale(rng)
         if rng.random() < 0.5:
             respell_names(rng, w)
             ctx.coverage["chain_pushes_with_respelled_names"] = ctx.coverage.get("chain_pushes_with_respelled_names", 0) + 1
